@@ -35,6 +35,21 @@ NONDET_REVIEWED = {
 }
 
 
+# the same reviews stated over *what is iterated* (the type of the collection), so that they survive a
+# renamed function or `iter()` becoming `into_iter()` / a `for` loop
+NONDET_REVIEWED_TYPES = [
+    (r"HashMap<std::string::String,\s*std::collections::HashSet<[\w:]*SpanAndIdent", "order of the reported literal *set* (the statement promises a set)"),
+    (r"HashSet<[\w:]*SpanAndIdent", "order of locations inside one literal entry (a set)"),
+]
+
+
+def _reviewed_by_type(ty):
+    for rx, why in NONDET_REVIEWED_TYPES:
+        if re.search(rx, ty or ""):
+            return why
+    return None
+
+
 # reviewed sites whose chain may select by position (none on the reviewed tree)
 REVIEWED_SELECTIVE = {}
 
@@ -329,6 +344,15 @@ def rule_nondet(check, reach):
                         found.setdefault((T.short(f), "for", base), []).append(n)
     for key, nodes in sorted(found.items()):
         why = NONDET_REVIEWED.get(key)
+        if not why and key[2] in ("HashMap", "HashSet"):
+            tys_ = []
+            for n_ in nodes:
+                it_ = hir.peel(n_["scrut"]) if n_.get("k") == "Match" else n_
+                a_ = hir.call_args(it_) if hir.is_call(it_) else []
+                tys_.append((hir.peel(a_[0]).get("ty") or "") if a_ else "")
+            whys_ = {_reviewed_by_type(t_) for t_ in tys_}
+            if len(whys_) == 1 and None not in whys_:
+                why = whys_.pop()
         k = "%s/%s/%s/%s" % (R, key[0], key[1], key[2])
         fobj = [f for f in prog.user_fns if T.short(f) == key[0]]
         if not why and fobj and all(_order_free(fobj[0], n) for n in nodes):
